@@ -25,6 +25,7 @@ use super::goal::*;
 use super::logic_var::*;
 use super::parse_terms::*;
 use super::parse_goals::*;
+use super::time_out::*;
 
 use crate::atom;
 use crate::str_to_chars;
@@ -102,7 +103,9 @@ pub fn make_query(terms: Vec<Unifiable>) -> Goal {
     // the substitution set. The substitution set is as large as
     // the highest variable ID (LOGIC_VAR_ID). Therefore LOGIC_VAR_ID
     // should be set to 0 for every query.
-    clear_id();  // Reset LOGIC_VAR_ID.
+    // A query which timed out leaves the stop-query flag set. The flag must be
+    // cleared here, otherwise no rules are found for the new query.
+    start_query();  // Reset LOGIC_VAR_ID and the stop-query flag.
 
     let mut new_terms: Vec<Unifiable> = vec![];
     let mut vars = VarMap::new();
